@@ -29,7 +29,7 @@ func init() {
 		"class of single-bit change (signature, protected header, payload, AAD), foreign key, truncated/odd/oversized/short "+
 		"signatures, unknown and non-integer algorithm ids, leading-zero r/s; library Verify vs Lean sign1Verify + Go stdlib "+
 		"primitive on the Lean-computed Sig_structure; COSE_Mac0 digests vs Lean HMAC over the Lean MAC_structure; "+
-		"distinct = distinct (object, aad, key) triples; trivial = none", c13)
+		"objects written by encoders with MapKeySort set and objects signed again with a key of another algorithm; distinct = distinct (object, aad, key) triples; trivial = none", c13)
 }
 
 type sigKind struct {
